@@ -57,15 +57,28 @@ FontDesc(f) == -200
 RECURSIVE Pairs2(_)
 Pairs2(s) == IF Len(s) < 2 THEN <<>> ELSE <<s[1] * 256 + s[2]>> \o Pairs2(SubSeq(s, 3, Len(s)))
 Codes(f, s) == IF FontMB(f) THEN Pairs2(s) ELSE s
-CSN(name) == CASE name = "DeviceGray" -> 1 [] name = "DeviceRGB" -> 3 [] name = "DeviceCMYK" -> 4 [] OTHER -> 0
-CSInit(name) == CASE name = "DeviceGray" -> <<0>> [] name = "DeviceRGB" -> <<0, 0, 0>> [] OTHER -> <<0, 0, 0, 1>>
+\* colour spaces: the device spaces by name and the page's /ColorSpace resources (MC: the realiser writes exactly these)
+\*   CsI1 CsI3 CsI4  [/ICCBased stream] with /N 1, 3, 4      CsBad  [/ICCBased stream] without /N (unusable: `cs` ignored)
+\*   CsN2 CsN3       [/DeviceN [names] /DeviceRGB fn]         CsSep  [/Separation /Spot /DeviceCMYK fn]
+\*   CsIdx           [/Indexed /DeviceRGB 1 <...>]            CsLab  [/Lab << /WhitePoint ... >>]
+CSN(name) == CASE name \in {"DeviceGray", "CsI1", "CsSep", "CsIdx"} -> 1
+               [] name \in {"DeviceRGB", "CsI3", "CsN3", "CsLab"} -> 3
+               [] name \in {"DeviceCMYK", "CsI4"} -> 4
+               [] name = "CsN2" -> 2
+               [] OTHER -> 0
+\* initial colour of a colour space (ISO 32000-1 table 74): black in the device spaces, all components 0 in CIE-based and
+\* indexed spaces, all tints 1 in Separation and DeviceN
+CSInit(name) == CASE name = "DeviceCMYK" -> <<0, 0, 0, 1>>
+                  [] name \in {"CsN2", "CsN3", "CsSep"} -> [i \in 1..CSN(name) |-> 1]
+                  [] OTHER -> [i \in 1..CSN(name) |-> 0]
 
 \* tokens
 Num(n)  == [t |-> "num", n |-> n, s |-> <<>>, a |-> <<>>]
 Str(s)  == [t |-> "str", n |-> 0, s |-> s, a |-> <<>>]
 \* names and operators are stored as indexes into these tables so that every token field has one type
 \* (TLC cannot order sets that mix integers and strings)
-NameTab == <<"F1", "F2", "Fm1", "Fm2", "DeviceGray", "DeviceRGB", "DeviceCMYK", "x">>
+NameTab == <<"F1", "F2", "Fm1", "Fm2", "DeviceGray", "DeviceRGB", "DeviceCMYK", "x",
+            "CsI1", "CsI3", "CsI4", "CsBad", "CsN2", "CsN3", "CsSep", "CsIdx", "CsLab">>
 OpTab == <<"q", "Q", "cm", "w", "d", "BT", "ET", "Tc", "Tw", "Tz", "TL", "Tf", "Ts", "Td", "TD", "Tm", "T*", "Tj", "TJ", "'", "\"",
            "g", "G", "rg", "RG", "k", "K", "cs", "CS", "sc", "scn", "SC", "SCN", "m", "l", "c", "v", "y", "h", "re",
            "S", "s", "f", "F", "f*", "B", "B*", "b", "b*", "n", "Do", "zz">>
@@ -200,7 +213,7 @@ SetColorN(st, which) ==
   LET cs == IF which = "n" THEN st.ncs ELSE st.scs
       n == CSN(cs)
       have == Len(st.args) IN
-  IF n \notin {1, 3, 4} THEN st
+  IF n = 0 THEN st
   ELSE IF have < n
        THEN IF "ScnShortRaises" \in Dev THEN [st EXCEPT !.err = "IndexError/TypeError"]
             ELSE [st EXCEPT !.args = <<>>]
